@@ -290,11 +290,12 @@ pub fn launch(ctx: &mut Ctx, cfg: &Cfg, dir: &Path, rules: &[Rule], program: Opt
 fn failing_steps(evs: &[Ev]) -> Vec<(u16, bool, i32)> {
     let mut v = vec![];
     for e in evs {
+        // only steps of the launch itself count (reaping the failed child, closing descriptors etc. are clean-up, not a cause)
         let failed = match e.kind {
             k::SIGMASK => e.ret != 0,
-            k::ALLOC | k::REALLOC | k::DEALLOC | k::PANIC | k::EXIT | k::NANOSLEEP => false,
-            k::READ | k::WRITE => false,
-            _ => e.ret < 0,
+            k::PIPE | k::PIPE2 | k::FCNTL | k::FORK | k::VFORK | k::CHDIR | k::FCHDIR | k::DUP | k::DUP2 | k::DUP3 | k::SETUID | k::SETGID | k::SETPGID | k::SETRES | k::SETGROUPS | k::SETSID
+            | k::EXECVE | k::EXECV | k::EXECVP | k::SIGNAL | k::SIGACTION | k::OPEN | k::POSIX_SPAWN => e.ret < 0,
+            _ => false,
         };
         if failed {
             v.push((e.kind, e.child != 0, e.err));
@@ -471,6 +472,35 @@ pub fn run(ctx: &mut Ctx) {
                 }
             }
         }
+    });
+    // ---- the process ignores SIGCHLD (children are reaped by the kernel behind the library's back):
+    //      the error must still be that of the step that failed
+    ctx.family("sigchld-ignored", ctx.n(48, 400), |ctx, rng, i| {
+        let cfg = Cfg { sin: (i % 2) as u8, sout: (i % 2) as u8, serr: 0, detached: i % 4 >= 2, cwd: false, setuid: false, setgid: false, setpgid: false, exe_override: false, path_search: i % 3 == 0, env: false };
+        let dir = ctx.scratch("c07s");
+        let kind = *rng.pick(&[k::DUP2, k::EXECVE, k::EXECVE, k::SETPGID, k::CHDIR]);
+        let mut cfg = cfg;
+        if kind == k::DUP2 {
+            cfg.sout = 1;
+        }
+        if kind == k::SETPGID {
+            cfg.setpgid = true;
+        }
+        if kind == k::CHDIR {
+            cfg.cwd = true;
+        }
+        let e = *rng.pick(&[libc::EACCES, libc::ENOENT, libc::ENOMEM, libc::EPERM, libc::ENOTDIR]);
+        let rule = Rule { kind, scope: plan::SCOPE_CHILD, nth: if kind == k::EXECVE { 0 } else { 1 }, fd: -1, act: plan::ACT_FAIL, val: e as i64, prob: 1000 };
+        let old = unsafe { libc::signal(libc::SIGCHLD, libc::SIG_IGN) };
+        let l = launch(ctx, &cfg, &dir, &[rule], None, None);
+        unsafe { libc::signal(libc::SIGCHLD, old) };
+        if l.fired[0] == 0 {
+            ctx.count("injections_not_reached", 1);
+            return;
+        }
+        ctx.count("launches_with_sigchld_ignored", 1);
+        ctx.distinct(&format!("sigchld-ign|{}|{}|{}", cfg.name(), k::name(kind), e));
+        judge(ctx, &cfg, &l, &format!("sigchld-ignored/child:{}", k::name(kind)), Some(true));
     });
     // ---- real causes
     let reals: Vec<&str> = vec!["missing", "directory", "mode0644", "bad-cwd", "cwd-is-file", "missing-on-path", "empty-path-entries", "noexec-on-path", "name-too-long", "garbage-file"];
